@@ -82,7 +82,9 @@ def run(cfg, w):
     dims = {l: make_dim(l, n) for l, n in lens.items()}
     xd = cfg["xd"]
     X = w.arr("x", tuple(lens[l] for l in xd))
-    x = FlodymArray(dims=make_dimset(xd, lens, dims), values=X.copy(), name="xx")
+    from svx.configs import relayout
+
+    x = FlodymArray(dims=make_dimset(xd, lens, dims), values=relayout(X.copy(), sum(map(ord, cfg["key"])) % 3), name="xx")
     h = cfg["h"]
 
     def check_dims(res, letters):
